@@ -1803,7 +1803,10 @@ def _re_fn(ufn, name):
     def f(it, a, k):
         p, s = T(it, a[0]), T(it, a[1])
         if it.branch(Py.is_pattern(p)):
-            raise Unsupported("re function with compiled pattern")
+            # a compiled pattern is accepted as the first argument
+            if not it.branch(Py.is_str(s)):
+                it.raise_(TypeError, "expected string or bytes-like object")
+            return z3.If(ufn(Py.psrc(p), Py.s(s)), S.mk_int(1), S.NONE)
         if not it.branch(Py.is_str(p)):
             it.raise_(TypeError, "first argument must be string or compiled pattern")
         if not it.branch(valid_re(Py.s(p))):
